@@ -38,6 +38,10 @@ def fresh_names(rng, names):
     stems = ["a", "ab", "abc", "Z", "ZZ", "m1", "m10", "m2", "job", "jobs", "9k", "x y", "Q", "q", "Task", "Worker", "horiz",
              "Buffer", "p", "pp", "ppp", "w", "ww", "t", "tt", "k8", "k80", "alpha", "alph", "beta", "be", "zeta", "z", "n0",
              "n00", "r", "rr", "rrr", "u", "uu", "v", "vv", "s1", "s11", "s111", "e", "ee", "eee", "d", "dd", "ddd"]
+    if rng.random() < 0.35:
+        # names outside the identifier alphabet, several of which differ only in characters a "sanitiser" would fold
+        stems = ["切削", "研磨", "组装", "α", "β", "γ", "côte", "cète", "step (a)", "step [a]", "job 1", "job_1", "job-1", "a.b",
+                 "a b", "a/b", "a+b", "x y", "x_y", "naïve", "naive", "Ω1", "Ω2", "é", "è", "t#1", "t#2", "w:1", "w;1", "m'", 'm"']
     rng.shuffle(stems)
     for s in stems:
         if s not in names and s not in pool:
